@@ -128,4 +128,29 @@ pub fn work(ctx: &Ctx, rep: &mut Report, g1: (usize, usize), g2_k: (usize, usize
         }
         rep.count("g3_histories", done);
     }
+    // G3s: the property's commands after scenarios that cross screen switches and resizes
+    {
+        let sizes: &[(usize, usize)] = if ctx.thorough { &[(4, 4), (6, 5), (3, 3), (9, 2), (2, 6), (1, 3)] } else { &[(4, 4), (6, 5), (3, 3)] };
+        let mut done = 0u64;
+        for (c, r) in sizes {
+            let mut cmds = g3_commands(prop, *c, *r);
+            if cmds.is_empty() {
+                cmds = vec!["x".to_string()];
+            }
+            let sc = Scenario { cols: *c, rows: *r, commands: cmds };
+            let total = sc.count();
+            let stride = if ctx.thorough { 1 } else { (total / 120_000).max(1) };
+            let mut u = ctx.shard * stride + (ctx.seed as usize % stride);
+            while u < total {
+                let h = sc.history(u);
+                if done == 7 && *c == 4 {
+                    rep.sample(format!("G3s (text x enter x resize x margins x origin x leave x resize x command, {} of {}): {}", total / stride, total, h.brief()));
+                }
+                run_one(prop, &h, rep);
+                done += 1;
+                u += stride * ctx.nshards;
+            }
+        }
+        rep.count("g3s_scenario_histories", done);
+    }
 }
